@@ -48,6 +48,13 @@ Theorem C11_template_matcher_decides_language : forall ps s,
 Proof. exact rx_match_spec. Qed.
 Print Assumptions C11_template_matcher_decides_language.
 
+(* ... where the language of one expression body is literally  C1* (?:sep C2* ){0,k} : a run of class characters and
+   pct-triplets, then at most k (any number when k = None) groups of a separator and a run. *)
+Theorem C11_language_is_the_regular_expression : forall cls1 cls2 sep k s,
+  BodyL cls1 cls2 sep k s <-> exists u r, s = u ++ r /\ UnitsL cls1 u /\ SepsL cls2 sep k r.
+Proof. exact BodyL_is_the_expression. Qed.
+Print Assumptions C11_language_is_the_regular_expression.
+
 (* "...a valid URI template of which the topic is an expansion" (if): every RFC 6570 expansion - any
    operator, prefix and explode modifiers, any number of variables, defined or not, string values of
    any characters - of a selector the hub treats as a template is answered true, whatever the cache did before. *)
@@ -59,6 +66,27 @@ Proof.
   apply spec_iff. right. right. exists f. split; [exact Hf | exact (expansion_matches_hub sel ps env f Hp Hf)].
 Qed.
 Print Assumptions C11_expansions_match.
+
+(* With the modelled library in the place of the parameter, the hypothesis of C11_code_follows_rule and
+   C11_concurrent_transparent (a selector without "{" matches only itself) is a theorem, and both hold outright:
+   what the hub evaluates - uncached, cached after any history and evictions, or concurrently under every
+   interleaving of the cache operations - is the rule "*, or equal, or a template the topic matches". *)
+Theorem C11_brace_free_template_is_a_literal : forall sel f topic,
+  has_brace sel = false -> ut_tmatch sel = Some f -> f topic = true -> topic = sel.
+Proof. exact brace_free_matches_itself. Qed.
+Print Assumptions C11_brace_free_template_is_a_literal.
+
+Theorem C11_hub_follows_rule_modelled_library : forall topic sel,
+  match_raw ut_tmatch topic sel = match_spec ut_tmatch topic sel.
+Proof. exact (match_raw_spec ut_tmatch brace_free_matches_itself). Qed.
+Print Assumptions C11_hub_follows_rule_modelled_library.
+
+Theorem C11_concurrent_transparent_modelled_library : forall sched c qss,
+  truthful ut_tmatch c ->
+  Forall (fun th => Forall (fun d => snd d = match_spec ut_tmatch (fst (fst d)) (snd (fst d))) (ct_done th))
+         (snd (crun ut_tmatch (c, map start_thread qss) sched)).
+Proof. exact (concurrent_transparent ut_tmatch brace_free_matches_itself). Qed.
+Print Assumptions C11_concurrent_transparent_modelled_library.
 
 (* (only if) is false of the code: the generated expression ignores variable names and prefix lengths.
    Recorded as known findings c11-regexp-ignores-variable-name / c11-regexp-ignores-prefix-length. *)
